@@ -56,14 +56,17 @@ Theorem save_obj_packets f c t pad cb f' pages :
   ogg_save_obj f c t pad cb = Ok f' ->
   exists olds news k,
     cut_ok c t pad cb pages olds news k /\ ogg_parse f' = Ok (cut_result k news) /\
+    filter (not_serial (cut_s k)) (cut_result k news) = filter (not_serial (cut_s k)) pages /\
     (continued (cut_old0 k) = false ->
-     exists pre post,
-       ogg_f_stream_packets (cut_s k) pages = pre ++ [cut_p0 k] ++ post /\
-       ogg_f_stream_packets (cut_s k) (cut_result k news) = pre ++ [cut_d k] ++ post).
+     exists post,
+       ogg_f_stream_packets (cut_s k) pages =
+         ogg_f_unpage (filter (is_serial (cut_s k)) (cut_before k)) ++ [cut_p0 k] ++ post /\
+       ogg_f_stream_packets (cut_s k) (cut_result k news) =
+         ogg_f_unpage (filter (is_serial (cut_s k)) (cut_before k)) ++ [cut_d k] ++ post).
 Proof.
   intros Hp Hs H.
   destruct (save_obj_step f c t pad cb f' pages Hp Hs H) as (olds & news & k & K & P' & S' & O & V1 & V2 & NK & Wres).
-  exists olds, news, k. split; [exact K|]. split; [exact P'|]. intros Hc.
+  exists olds, news, k. split; [exact K|]. split; [exact P'|]. split; [exact O|]. intros Hc.
   apply parse_iff in Hp as (Ef & W).
   destruct (cut_news_ok c t pad cb pages olds news k W K) as (_ & Wo & WG & Wb).
   pose proof K as (Ep & Eo & S1 & S2 & S3 & S4 & T & N & F).
@@ -88,7 +91,7 @@ Proof.
     rewrite Emap in T. destruct (to_packets_last _ _ _ T H1) as (_ & L2). rewrite Er, zlen_cons, zlen_nil in L2. lia. }
   pose proof (to_packets_fold false _ _ T) as X0. cbn [negb andb] in X0. rewrite Eolds in X0. cbn [hd] in X0. rewrite Hc in X0.
   assert (Wolds : Forall (fun p => canonicalb p = true) (cut_old0 k :: mr)) by (apply wf_canonical; rewrite <- Eolds; exact Wo).
-  exists (Ufrom [] A), (Ufrom (cut_rest k) Tl). split.
+  exists (Ufrom (cut_rest k) Tl). rewrite unpage_is_Ufrom. fold s A. split.
   - unfold ogg_f_stream_packets. rewrite ogg_is_serial_eq, unpage_is_Ufrom. fold s. rewrite V1, Eolds. fold A Tl.
     rewrite !Ufrom_app. rewrite (Ufrom_fresh _ Ch1 Wolds (Ufrom [] A)), <- X0.
     change (cut_p0 k :: cut_rest k) with ([cut_p0 k] ++ cut_rest k). rewrite app_assoc.
@@ -128,7 +131,7 @@ Proof.
     assert (Epk : Ufrom [] (n0 :: nr) = cut_d k :: cut_rest k).
     { rewrite <- Eprep. unfold cut_prepared.
       assert (Eh : cut_old0 k = hd new_page (map fst (cut_run k))) by (rewrite Eolds; reflexivity).
-      rewrite Eh. apply (prepared_packets (map fst (cut_run k)) (cut_on k) news (cut_d k :: cut_rest k) _ (p_sequence (cut_old0 k))).
+      rewrite Eh. apply (prepared_packets (map fst (cut_run k)) (cut_on k) news (cut_d k :: cut_rest k) (cut_p0 k :: cut_rest k) (p_sequence (cut_old0 k))).
       - rewrite Eolds. discriminate.
       - rewrite <- Eh. exact Hc.
       - exact T.
